@@ -61,3 +61,14 @@ func stripNested(query string) string {
 	}
 	return strings.Join(out, "\n")
 }
+
+// addViolation: an obligation that failed in a unit whose loop clauses no longer apply to the code
+// (renamed or removed locals) counts as a violation only when a failing input was reproduced on
+// the real code; otherwise the check could not decide (harmless refactorings must not alarm).
+func addViolation(violations, infra []string, line string, o *Obligation, u *Unit) ([]string, []string) {
+	if u != nil && len(u.dropped) > 0 && !o.Reproduced {
+		infra = append(infra, o.Name+": not decided - loop clauses of the contract no longer apply ("+u.dropped[0]+") and no failing input was found")
+		return violations, infra
+	}
+	return append(violations, line), infra
+}
